@@ -606,6 +606,33 @@ class SSeq:
     def __bool__(self):
         return bool(sbool(r_cmp(">", self.n, 0)))
 
+    def __add__(self, other):
+        """tuple/list concatenation"""
+        if isinstance(other, (list, tuple)):
+            if len(other) == 0:
+                return self
+            vals = list(other)
+            other = SSeq(len(vals), lambda k: vals[k] if isinstance(k, int) else _list_elem([_rawsc(v) for v in vals], "o")(k), "lit")
+        if not isinstance(other, SSeq):
+            return NotImplemented
+        n1, a, b = self.n, self, other
+
+        def at(k):
+            if isinstance(k, int) and isinstance(n1, int):
+                return a.at(k) if k < n1 else b.at(k - n1)
+            return wrap_scalar(sc_ite(r_cmp("<", k, n1), _rawsc(a.at(k)), _rawsc(b.at(core._num_op("-", k, n1)))))
+
+        return SSeq(core._num_op("+", n1, other.n), at, "concat")
+
+    def __radd__(self, other):
+        if isinstance(other, (list, tuple)):
+            if len(other) == 0:
+                return self
+            vals = list(other)
+            o = SSeq(len(vals), lambda k: vals[k] if isinstance(k, int) else _list_elem([_rawsc(v) for v in vals], "o")(k), "lit")
+            return o.__add__(self)
+        return NotImplemented
+
 
 class SIdx(SSeq):
     """Symbolic sequence of raw ints (index list), e.g. addend_idxs.  `.at` is raw
@@ -734,8 +761,10 @@ def array(x, dtype=None, copy=None):
     if isinstance(x, SIdx):
         return x.as_tensor()
     if isinstance(x, SSeq):
-        probe = x.at(0) if isinstance(x.n, int) and x.n > 0 else None
-        return STensor((x.n,), lambda k: _rawsc(x.at(k)), "f" if dtype in (float, None) else "i")
+        kind = "f" if dtype in (float,) else ("i" if dtype in (int,) else getattr(x, "elem_kind", "i"))
+        if kind == "f":
+            return STensor((x.n,), lambda k: to_f(_rawsc(x.at(k))), "f")
+        return STensor((x.n,), lambda k: _rawsc(x.at(k)), kind)
     try:
         import numpy as _np
 
@@ -1138,6 +1167,11 @@ def nan_to_num(a):
 
 def where(cond, x=None, y=None):
     if x is None and y is None:
+        t = _as_tensor_or_scalar(cond)
+        if t is not None and t.ndim == 1 and isinstance(t.rshape[0], int) and t.rshape[0] <= 8:
+            # bounded: positions of the true entries, one path per truth assignment
+            pos = [i for i in range(t.rshape[0]) if bool(sbool(_truthy(t._elem(i))))]
+            return (STensor((len(pos),), _list_elem(pos, "i") if pos else _raise_empty, "i"),)
         raise OutOfReach("np.where(cond) index form")
     return _where3(cond, x, y)
 
@@ -1314,7 +1348,10 @@ def _getitem(t, key):
             _check_idx_seq(s, t.rshape[ax])
 
         def elem(*idx):
-            src = [seqs[a].at(idx[a]) for a in range(len(seqs))] + list(idx[len(seqs):])
+            src = [
+                (seqs[a].at(idx[a]) if getattr(seqs[a], "nonneg", False) else _wrap_noob(seqs[a].at(idx[a]), t.rshape[a]))
+                for a in range(len(seqs))
+            ] + list(idx[len(seqs):])
             return t._elem(*src)
 
         return STensor(shape, elem, t.kind)
@@ -1375,7 +1412,7 @@ def _getitem(t, key):
                 srcidx.append(core._num_op("+", p[1], idx[p[2]]))
             else:
                 v = p[1].at(idx[p[2]])
-                srcidx.append(_wrap_noob(v, p[3]))
+                srcidx.append(v if getattr(p[1], "nonneg", False) else _wrap_noob(v, p[3]))
         return t._elem(*srcidx)
 
     r = STensor(tuple(out_shape), elem, t.kind)
